@@ -245,3 +245,74 @@ class C13(EnumCheck):
         finally:
             shutil.rmtree(d, ignore_errors=True)
         return self.record_case(sc, out, vs, case, fired)
+
+
+def _c13_batch_extra(self, tier):
+    """S3: a real forked worker is killed with SIGKILL at the k-th file operation of its save
+    (simlab/realkill.py); validates the lost-buffer model of the simulated kill against the real OS."""
+    import json
+    import os
+    import subprocess
+    import sys
+    from . import REPO_DIR, VERIF_DIR
+    from .driver import scratch_root
+    vs = []
+    samples = []
+    n = 0
+    ks = [0, 1, 2, 3, 5, 8, 13, 21, 34, 50] if tier == 'quick' else list(range(0, 62))
+    env = dict(os.environ)
+    env['PYTHONPATH'] = REPO_DIR
+    jobs = [(mode, k) for mode in ('first', 'overwrite') for k in ks]
+    procs = []
+    for mode, k in jobs:
+        d = tempfile.mkdtemp(prefix='simlab-c13real-', dir=scratch_root())
+        p = subprocess.Popen([sys.executable, os.path.join(VERIF_DIR, 'simlab', 'realkill.py'), d, mode, str(k)],
+                             stdout=subprocess.PIPE, stderr=subprocess.DEVNULL, text=True, env=env)
+        procs.append((mode, k, d, p))
+        if len(procs) >= 8:
+            n += _c13_collect(procs, vs, samples)
+            procs = []
+    n += _c13_collect(procs, vs, samples)
+    return vs, {'real_kill_runs': n, 'real_kill_samples': samples[:3]}
+
+
+def _c13_collect(procs, vs, samples) -> int:
+    import json
+    import subprocess
+    n = 0
+    for mode, k, d, p in procs:
+        try:
+            out, _ = p.communicate(timeout=120)
+        except subprocess.TimeoutExpired:
+            p.kill()
+            vs.append(O.V('C13', 'real-probe-timeout', f'real kill probe mode={mode} k={k} did not finish', mode=mode))
+            shutil.rmtree(d, ignore_errors=True)
+            continue
+        shutil.rmtree(d, ignore_errors=True)
+        line = [x for x in out.splitlines() if x.startswith('KILLPROBE ')]
+        if not line:
+            vs.append(O.V('C13', 'real-probe-failed', f'real kill probe mode={mode} k={k} gave no result', mode=mode))
+            continue
+        n += 1
+        info = json.loads(line[0][10:])
+        if len(samples) < 3 and info.get('worker_died'):
+            samples.append(info)
+        where = f'real fork worker killed (SIGKILL) at file operation {k} of its save, {mode}'
+        if 'observe_error' in info:
+            vs.append(O.V('C13', 'real-observe-raises', f'{where}: is_cached/cached_tasks raised {info["observe_error"]}', mode=mode, fault='kill'))
+        elif info.get('is_cached') or info.get('listed'):
+            if 'later_run_error' in info:
+                vs.append(O.V('C13', 'real-cached-but-unloadable', f'{where}: is_cached={info.get("is_cached")} listed={info.get("listed")} '
+                              f'but a later run fails: {info["later_run_error"]}', mode=mode, fault='kill'))
+            else:
+                lr = info['later_run']
+                ok_gens = (0, 1) if mode == 'overwrite' else (1,)
+                if lr['gen'] not in ok_gens or lr['len'] != 50000:
+                    vs.append(O.V('C13', 'real-cached-wrong-value', f'{where}: a later run loads {lr}', mode=mode, fault='kill'))
+        elif 'later_run_error' in info:
+            vs.append(O.V('C13', 'real-later-run-fails', f'{where}: not reported cached, but a later run fails: {info["later_run_error"]}',
+                          mode=mode, fault='kill'))
+    return n
+
+
+C13.batch_extra = _c13_batch_extra
